@@ -673,6 +673,7 @@ var rpcClientOps = map[string]bool{"Get": true, "Head": true, "HeadBuffered": tr
 func rpcGen(c *runCtx, run func([]string)) {
 	if c.prop == "C32" {
 		ops := ctlGenOps(c)
+		ops = append(ops, craceGen(c)...) // one server, many requests in flight (eng_rpc_ctlrace.go)
 		c.rng.Shuffle(len(ops), func(i, j int) { ops[i], ops[j] = ops[j], ops[i] })
 		run(ops)
 		return
@@ -709,6 +710,10 @@ func rpcExec(c *runCtx, ops []string) {
 		if o.name != "obj" {
 			if o.name == "ctl" || o.name == "irctl" {
 				ctlExecLine(c, line, o)
+				continue
+			}
+			if o.name == "crace" {
+				craceExec(c, line, o)
 				continue
 			}
 			if o.name == "auth" {
